@@ -4,7 +4,7 @@
     decidable known-finding classes F-C14-a..d = k_boundary, k_slash_static, k_optional,
     k_dslash, the same predicates as [classify] in gen/c14.py). *)
 From Coq Require Import List NArith.
-From LV Require Import Base.Bytes Router.Match Router.Flat Router.MatchProofs Router.MatchOptProofs.
+From LV Require Import Base.Bytes Router.Match Router.Flat Router.Build Router.MatchProofs Router.MatchOptProofs.
 Import ListNotations.
 Open Scope N_scope.
 
@@ -182,3 +182,34 @@ Theorem C14_build_then_match_except_known :
           ps = bindings f vals).
 Proof. exact build_then_match_any. Qed.
 Print Assumptions C14_build_then_match_except_known.
+
+(** the same about the REAL builder (Router/Build.v transcribes StaticPath::into_paths of
+    static_routes.rs; the harness drives it on every generated route): every path it builds
+    from an expansion of route [i] as the router registers it (Static(base) in front), for
+    prerendered values that are non-empty and free of '/', is a [built] path, hence matched,
+    first entry wins, and the values come back *)
+Theorem C14_build_then_match_real_except_known :
+  forall base rs i f e pm paths p,
+    wf_tree rs = true -> wf_routes rs = true ->
+    nth_error (gen_routes rs) i = Some f -> In e (expand_optionals f) ->
+    pm_ok pm ->
+    into_paths (registered base e) pm = Some paths -> In p paths ->
+    starts_with_slash p = true -> known_class base rs p = false ->
+    exists vals ch ps,
+      vals_ok e vals /\ p = built base e vals
+      /\ match_route base rs p = MYes ch ps
+      /\ (exists pre g post e',
+            table base (gen_routes rs) = pre ++ g :: post
+            /\ Forall (fun x => route_matches_flat x p = false) pre
+            /\ In e' (expand_optionals g) /\ flat_match e' p = Some ps)
+      /\ (existsb is_popt f = false ->
+          Forall (fun x => route_matches_flat x p = false) (firstn i (table base (gen_routes rs))) ->
+          ps = bindings f vals).
+Proof. exact build_then_match_real. Qed.
+Print Assumptions C14_build_then_match_real_except_known.
+
+(* F-C14-e: the builder is todo!() on an unexpanded OptionalParam *)
+Theorem C14_into_paths_total_refuted :
+  exists f pm, into_paths f pm = None.
+Proof. exact into_paths_total_refuted. Qed.
+Print Assumptions C14_into_paths_total_refuted.
